@@ -10,7 +10,7 @@ import math
 import numpy as np
 
 from . import env
-from .harness import to_np
+from .harness import InjectedInterrupt, to_np
 
 
 class StallDetected(RuntimeError):
@@ -25,6 +25,7 @@ class Recorder:
         self.events = []  # ("ratio"|"ratio_var"|"resample"|"mutate", ...)
         self.stall = None
         self.cur_beta = None
+        self.cur_beta_arg = None
         self.n_mutate = 0
         self.resamples = []  # dict(src=pop dict, beta_from, beta_to, n_req, out=pop dict)
         self.keep_resample_pops = False
@@ -128,7 +129,11 @@ def install():
         def mutate(self, particles, beta, *args, **kwargs):
             r = REC
             if r is not None:
-                r.cur_beta = float(beta)
+                # the temperature of the population being moved is the one it carries (set by the resampling that produced
+                # it); the argument handed to mutate is recorded separately so that a disagreement is observable
+                pb = getattr(particles, "beta", None)
+                r.cur_beta = float(beta) if pb is None else float(to_np(pb))
+                r.cur_beta_arg = float(beta)
                 r.n_mutate += 1
                 r.events.append(("mutate", id(particles), float(beta)))
             try:
@@ -273,7 +278,7 @@ def run(aspire, n, sampler="smc", opts=None, identity=False, max_calls=20000, re
         out = aspire.sample_posterior(n, sampler=sampler, return_history=True, **(opts or {}))
         res.samples, res.history = out
     except BaseException as exc:  # noqa: BLE001
-        if isinstance(exc, (KeyboardInterrupt, SystemExit)):
+        if isinstance(exc, (KeyboardInterrupt, SystemExit)) and not isinstance(exc, InjectedInterrupt):
             raise
         res.exc = exc
         res.exc_type = type(exc).__name__
@@ -307,7 +312,7 @@ def run_again(aspire, n, opts=None, identity=False, max_calls=20000, rec: Record
         res.samples = sampler.sample(n, **kw)
         res.history = sampler.history
     except BaseException as exc:  # noqa: BLE001
-        if isinstance(exc, (KeyboardInterrupt, SystemExit)):
+        if isinstance(exc, (KeyboardInterrupt, SystemExit)) and not isinstance(exc, InjectedInterrupt):
             raise
         res.exc = exc
         res.exc_type = type(exc).__name__
